@@ -112,7 +112,7 @@ def run(ctx):
     F = prog.one(r"paths::find_do_file")
     fba = BA.of(F)
     ffa = FA.of(F)
-    ex = fba.switches_on_call(r"std::path::Path::exists")
+    ex = common.decisive_switches_on_call(F, r"std::path::Path::exists")
     adds = fba.calls(r"state::File::add_dep")
     if ctx.ob("R2.5", "%s|anchors" % F.key, len(ex) == 1 and len(adds) >= 1 and bool(fba.calls(r"paths::possible_do_files")), where=F.span,
               detail="exists switch=%d add_dep=%d possible_do_files=%d" % (len(ex), len(adds), len(fba.calls(r"paths::possible_do_files")))):
@@ -128,12 +128,16 @@ def run(ctx):
         ctx.ob("R2.5", "%s|existing=>Modified|missing=>Created" % F.key, ok, where=ctx.where(F, sw),
                detail="modes: exists-side %s, missing-side %s" % ([sorted(str(x) for x in m) for m in t_modes.values()], [sorted(str(x) for x in m) for m in f_modes.values()]))
         somes = common.blocks_with_agg(F, r"core::option::Option", "Some")
-        p = ffa.path([t_t], nexts, incl=True)
+        # (the two sides start with the outcome of the existence test known: a later re-test of the same result -
+        # `let found = p.exists(); ..; if found { return .. }` - follows it)
+        oc = ffa.call_outcomes(cbb)
+        t_states, f_states = tuple(oc[True]), tuple(oc[False])
+        p = ffa.path([] if t_states else [t_t], nexts, incl=True, states=t_states)
         ok = p is None and any(ffa.edge_dominates((sw, t_t), s) for s in somes)
         ctx.ob("R2.5", "%s|first-existing-wins" % F.key, ok, where=ctx.where(F, sw), detail="the existing side returns Some(candidate) without looking further" if ok else "search continues past an existing candidate")
         common.mpt_f(ctx, "R2.5", "%s|every-missing-candidate-recorded" % F.key, F, [f_t], nexts + common.ok_returns(F), sorted(f_modes),
                      "every candidate found missing gets its Created edge before the search goes on", "a missing higher-priority candidate can be skipped without a Created edge: creating it later does not rebuild the target")
-        p = ffa.path([f_t], common.ok_returns(F), avoid=frozenset(nexts), incl=True)
+        p = ffa.path([] if f_states else [f_t], common.ok_returns(F), avoid=frozenset(nexts), incl=True, states=f_states)
         ctx.ob("R2.5", "%s|missing=>continue" % F.key, p is None, where=ctx.where(F, sw), detail="a missing candidate continues the search")
         # add_dep path operand = do_dir.join(do_file) tested by exists
         ex_arg, _, _ = backward_direct(F, op_local(F.blocks[cbb]["term"]["args"][0]))
